@@ -54,6 +54,8 @@ class Sched:
         self.current = None
         self.trace = []             # (thread idx, n_runnable) per step
         self.quiet = False          # when True switch points are ignored (run-to-completion segments)
+        self.step_timeout = 30.0    # seconds a thread may run without reaching a switch point or finishing
+        self._stuck_thread = None
         self.pos_fn = None          # optional: () -> position signature, called in the yielding thread
         self.on_step = None         # optional: callback(sched, thread) after every step (invariants)
         self.monitored_codes = []
@@ -146,19 +148,28 @@ class Sched:
                 self.trace.append((t.idx, len(r)))
                 self.current = t
                 t.go.release()
-                self.control.acquire()
+                if not self.control.acquire(timeout=self.step_timeout):
+                    # the running thread neither yielded nor finished: it is blocked on a primitive the
+                    # harness does not control (e.g. a real lock held by a thread that is parked at a switch
+                    # point).  The schedule cannot be continued; unwind everything and report 'stuck'.
+                    outcome = "stuck"
+                    self._stuck_thread = t
+                    break
                 step += 1
                 if self.on_step is not None:
                     self.on_step(self, t)
         finally:
             if not all(t.done for t in self.threads):
                 self.abort = True
-                for t in self.threads:
-                    if not t.done:
-                        t.go.release()
-                for t in self.threads:
-                    if not t.done:
-                        self.control.acquire()
+                self.quiet = False
+                pending = [t for t in self.threads if not t.done]
+                for t in pending:
+                    t.go.release()
+                for t in pending:
+                    # parked threads unwind with Abort (releasing whatever they hold), which also
+                    # unblocks a thread that was stuck behind them; it aborts at its next switch point
+                    if not self.control.acquire(timeout=120):
+                        break
             self.active = False
             for th in real:
                 th.join(timeout=5)
